@@ -332,6 +332,44 @@ impl Prop for C09 {
 				}
 			}
 		}
+		// deep stacks: k kept '..' (relative) or k ordinary segments, k on both sides of the 16-entry inline buffer and its
+		// doublings, followed by EVERY tail of <= 4 segments over {a, .., .} - a '..' must see the TOP of the stack at any depth
+		{
+			let tails: Vec<Vec<&str>> = {
+				let al = ["a", "..", "."];
+				let mut v: Vec<Vec<&str>> = vec![vec![]];
+				let mut cur: Vec<Vec<&str>> = vec![vec![]];
+				for _ in 0..4 {
+					let mut next = Vec::new();
+					for t in &cur { for x in al { let mut u = t.clone(); u.push(x); next.push(u); } }
+					v.extend(next.iter().cloned());
+					cur = next;
+				}
+				v
+			};
+			let mut gi = 0usize;
+			for k in (0..=40usize).chain([63, 64, 65, 127, 128, 129, 255, 256, 257]) {
+				for (lead, abs) in [("..", false), ("s", false), ("s", true), ("..", true)] {
+					for t in &tails {
+						gi += 1;
+						if gi % nshards != shard {
+							continue;
+						}
+						let mut segs: Vec<String> = (0..k).map(|j| if lead == "s" { format!("s{j}") } else { lead.to_string() }).collect();
+						segs.extend(t.iter().map(|x| x.to_string()));
+						let fam = if gi % 2 == 0 { Fam::Uri } else { Fam::Iri };
+						let e = match gi % 3 {
+							0 => None,
+							1 => Some(Embed { full: true, scheme: Some("s".into()), authority: None, query: None, fragment: None }),
+							_ => Some(Embed { full: false, scheme: None, authority: None, query: Some("q".into()), fragment: Some("f".into()) }),
+						};
+						if !f(Case { fam, embed: e, abs, segs, repeat_first: None }, true) {
+							return vec![];
+						}
+					}
+				}
+			}
+		}
 		// huge segments, each followed on the same thread by a small path
 		{
 			let mut gi = 0usize;
